@@ -12,7 +12,7 @@ THEOREMS = [("FlatModel.Props.C18", t) for t in (
     "FC.C18.lower_bound", "FC.C18.lower_bound_owned", "FC.C18.lower_bound_string", "FC.C18.lower_bound_slice")]
 THEOREMS += [("FlatModel.Props.UniverseHeap", "FC.Universe." + t) for t in ("C18_every_composition", "C18_default_floor", "C18_clear_caps_every_composition", "C18_clear_default_every_composition", "C18_clear_columns")]
 LEAN_TARGETS = ["FlatModel.Generated.CoveredHeap", "FlatModel.Generated.CoveredUniverseOps"]
-PROFILES = {"quick": ["checked"], "thorough": ["checked", "wrapping"], "search": ["checked"]}
+PROFILES = {"quick": ["checked", "wrapping"], "thorough": ["checked", "wrapping"], "search": ["checked"]}
 RULE = ("histories (push in any form, clear, reserve) on every entry that implements heap_size and on FlatStacks; after every step: "
         "every pair has used <= capacity, the summed used bytes are at least a lower bound computed from the shadow (payload bytes "
         "of strings and owned elements, one index entry per slice element / row cell / consecutive offset kept in a Vec container, "
